@@ -6,7 +6,7 @@ from gen import progs
 def describe(case):
     d = pretty.hist(case)
     lib = set(pretty.rule(parse(r)) for r in progs.LIB)
-    d["program"] = [r for r in d["program"] if r not in lib] + ["(+ those of the library predicates n/1 e/1 k/1 l/1 edge/2 mem/2 len/2 app/3 path/2 zero/0 that the case includes)"]
+    d["program"] = [r for r in d["program"] if r not in lib] + ["(+ those of the library predicates n/1 e/1 k/1 l/1 edge/2 mem/2 len/2 app/3 path/2 zero/0 d/1 dn/1 that the case includes)"]
     return d
 
 def make_relations(want, stats):
